@@ -1466,7 +1466,75 @@ pub fn stall(seed: u64) -> Plan {
 // ---------------------------------------------------------------------------------------------
 // manager-level profiles
 
+/// Directed history for the reservation bookkeeping: A and B have only piece x, C has everything
+/// and is fast, D..F advertise everything but x and never unchoke (so x is the rarest piece).
+/// A is asked for x, chokes, B is asked for x and is very slow; then A leaves (or repeats its
+/// Choke). x must stay with B: C may only take it in end game.
+fn bookkeeping_handover(seed: u64) -> Plan {
+    let mut r = Rng64::sub(seed, "bookkeeping-handover");
+    let piece_len = r.range(600, 3000);
+    let n_p = r.range(22, 30);
+    let g = simple_geometry(piece_len, n_p * piece_len - r.range(0, piece_len - 1));
+    let n = g.pieces();
+    let mut p = base_plan("bookkeeping", seed, g);
+    let x = r.usize_below(n);
+    let only_x: Vec<bool> = (0..n).map(|i| i == x).collect();
+    let all_but_x: Vec<bool> = (0..n).map(|i| i != x).collect();
+    let t_choke = r.range(50, 300);
+    let mut a = base_peer(0, n);
+    a.essential = false;
+    a.has = only_x.clone();
+    a.unchoke = Unchoke::OnInterested(r.range(1, 50));
+    a.answer.delay_min = 60_000;
+    a.answer.delay_max = 60_000;
+    a.strict_choke = true;
+    a.script.push(step(When::AfterRx { kind: "Request".into(), count: 1, plus: t_choke }, Act::Choke));
+    let t_leave = t_choke + r.range(700, 1_500);
+    let leave = match r.below(3) {
+        0 => Act::CloseFin,
+        1 => Act::CloseRst,
+        _ => Act::RepeatChokeState,
+    };
+    a.script.push(step(When::AfterRx { kind: "Request".into(), count: 1, plus: t_leave }, leave));
+    p.peers.push(a);
+    let mut b = base_peer(1, n);
+    b.essential = false;
+    b.has = only_x;
+    // unchokes once A has choked
+    let t_b = r.range(450, 650);
+    b.unchoke = Unchoke::At(t_b);
+    b.answer.delay_min = r.range(8_000, 20_000);
+    b.answer.delay_max = b.answer.delay_min;
+    p.peers.push(b);
+    // C is busy with the other pieces and learns of x while B sits on it
+    let mut c = base_peer(2, n);
+    c.essential = false;
+    c.has = all_but_x.clone();
+    c.unchoke = Unchoke::OnInterested(r.range(1, 50));
+    c.answer.delay_min = r.range(300, 600);
+    c.answer.delay_max = c.answer.delay_min;
+    c.script.push(step(When::At(t_b + r.range(60, 120)), Act::Gain(x as u32)));
+    p.peers.push(c);
+    for j in 3..6 {
+        let mut d = base_peer(j, n);
+        d.essential = false;
+        d.has = all_but_x.clone();
+        d.unchoke = Unchoke::Never;
+        p.peers.push(d);
+    }
+    let mut names: Vec<String> = p.peers.iter().map(|x| x.name.clone()).collect();
+    r.shuffle(&mut names);
+    p.tracker.steps.push((1, TrackerStep::Good { peers: names, malformed: 0, wrong_id_for: vec![] }));
+    p.deadline_ms = 12_000;
+    p.linger_ms = 500;
+    p.stop_on_done = false;
+    p
+}
+
 pub fn bookkeeping(seed: u64) -> Plan {
+    if Rng64::sub(seed, "bookkeeping-variant").chance(1, 10) {
+        return bookkeeping_handover(seed);
+    }
     let mut r = Rng64::sub(seed, "bookkeeping");
     let (lo, hi) = if r.chance(1, 2) { (3, 8) } else { (11, 22) };
     let g = small_multi_geometry(&mut r, lo, hi);
